@@ -11,7 +11,7 @@ def elemOut (h : Handler) (r : RawReq) : Option Resp × Option String :=
   | none => (some ⟨.nil, .error codeParseError⟩, none)
   | some id =>
     let o := h.handle false ⟨id, r.method, r.params⟩
-    (o.resp, o.invoked)
+    (httpWire id o, o.invoked)
 
 /-- Separator discipline, as a function of the response objects alone. -/
 def sepToks : Bool → List Resp → List Tok
